@@ -400,19 +400,27 @@ def rel_kepler(ctx, spec, x0, t0, t2, ttype="float"):
     return True
 
 
-def rel_universal(ctx, x0, dt):
+def rel_universal(ctx, x0, dt, mu_scale=1.0):
+    """mu_scale != 1: the solver's optional gravitational parameter. With mu' = s*mu the state (r, sqrt(s) v) flies the same
+    conic sqrt(s) times faster, so its state after dt/sqrt(s) is (r(dt), sqrt(s) v(dt)) of the Earth-mu orbit."""
     _init()
     from resonaate.physics.orbits.kepler import solveKeplerProblemUniversal
 
     x0 = np.asarray(x0, dtype=float)
-    w = _w("universal", x0=x0, dt=dt)
-    y = _call(ctx, lambda: solveKeplerProblemUniversal(x0.copy(), dt), "universal", w, "universal")
+    w = _w("universal", x0=x0, dt=dt, mu_scale=mu_scale)
+    rs = math.sqrt(mu_scale)
+    if mu_scale == 1.0:
+        y = _call(ctx, lambda: solveKeplerProblemUniversal(x0.copy(), dt), "universal", w, "universal")
+    else:
+        xs = np.concatenate([x0[:3], x0[3:] * rs])
+        y = _call(ctx, lambda: solveKeplerProblemUniversal(xs, dt / rs, mu=MU * mu_scale), "universal", w, "universal")
     if y is None:
         return False
     ref = K.propagate(x0, dt, MU)
+    ref = np.concatenate([ref[:3], ref[3:] * rs])
     ur, uv, nrev, e = _unit(x0, dt)
-    r = _ratio(np.asarray(y, dtype=float), ref, ur, uv)
-    _close(ctx, "universal", r, "universal-vs-closed-form", f"solveKeplerProblemUniversal over {dt:.6g} s ({nrev:.3g} rev, e={e:.3f}) "
+    r = _ratio(np.asarray(y, dtype=float), ref, ur, uv * rs)
+    _close(ctx, "universal", r, "universal-vs-closed-form" + ("" if mu_scale == 1.0 else "-other-mu"), f"solveKeplerProblemUniversal(mu = {mu_scale:.9g} x Earth) over {dt / rs:.6g} s ({nrev:.3g} rev, e={e:.3f}) "
            f"differs from closed form by {np.linalg.norm(np.asarray(y)[:3] - ref[:3]):.3e} km", w, "universal")
     return True
 
@@ -993,7 +1001,7 @@ def _tb_case(ctx, rng, i):
         dt = _rand_dt(rng, x0, 86400.0, 20.0)
         if rng.random() < 0.2:
             dt = 86400.0
-        done = rel_universal(ctx, x0, dt)
+        done = rel_universal(ctx, x0, dt, rng.choice([1.0, 1.0, 398600.8 / 398600.4418, 0.5, 2.0, 4902.800066 / 398600.4418]))
         key = (rel, _rnd(x0), dt)
         smp = {"relation": "solveKeplerProblemUniversal vs closed form", "x0": _rnd(x0), "dt": dt}
     elif rel in ("compose_u", "compose_e"):
@@ -1209,7 +1217,7 @@ def replay(ctx, w):
     elif k == "kepler":
         rel_kepler(ctx, w["spec"], w["x0"], w["t0"], w["t2"], w.get("ttype", "float"))
     elif k == "universal":
-        rel_universal(ctx, w["x0"], w["dt"])
+        rel_universal(ctx, w["x0"], w["dt"], w.get("mu_scale", 1.0))
     elif k == "compose":
         rel_compose(ctx, w["spec"], w["x0"], w["t0"], w["t1"], w["t2"], w.get("how", "uniform"), w.get("ttype", "float"))
     elif k == "batch":
